@@ -113,7 +113,8 @@ class C06(Prop):
                     sid += 1
                     yield {"k": "m1", "rows": ins_to_state(m), "r": r, "obs": lists, "seed": self.seed * 7919 + sid * 64}
                 if i % 25 == 0:
-                    m2, r2 = tabs[(i * 97 + 13) % len(tabs)]
+                    m2, r2 = rng.choice(self.maps[n]), (i // 25) % (n + 1)      # (drawn, not strided: a stride over the sorted
+                    # list of maps happened to pick only arguments whose first two rows carry equal signs)
                     sid += 1
                     yield {"k": "mstate", "rows": ins_to_state(m), "r": r, "arg": {"rows": ins_to_state(m2), "r": r2},
                            "seed": self.seed * 7919 + sid * 64}
